@@ -1,3 +1,4 @@
+import operator
 from dataclasses import dataclass, field
 from datetime import date
 from uuid import UUID
@@ -245,11 +246,10 @@ class RuleAttributeCondition(RuleProcessingCondition):
             )
 
         try:
-            return bool(getattr(value, self.op_methods[self.op])(compare_value))
-        # bool(NotImplemented) used to return `True` with Python<3.14
-        except TypeError:
-            return True
-        except AttributeError:  # operation not supported by value type
+            # The comparison operator (not the dunder method of the left operand) also considers the
+            # reflected operation: int.__eq__(5, 5.0) is NotImplemented, but 5 == 5.0 holds.
+            return bool(getattr(operator, self.op_methods[self.op])(value, compare_value))
+        except TypeError:  # operation not supported between the types
             return False
 
 
